@@ -260,6 +260,18 @@ impl PairHMM {
             for v in &mut self.fm[curr] {
                 *v = LogProb::ln_zero();
             }
+            if max_edit_dist.is_some() {
+                // cells skipped by the band must not keep the values of the column before the last
+                for v in &mut self.fx[curr] {
+                    *v = LogProb::ln_zero();
+                }
+                for v in &mut self.fy[curr] {
+                    *v = LogProb::ln_zero();
+                }
+                for v in &mut self.min_edit_dist[curr] {
+                    *v = usize::MAX;
+                }
+            }
         }
 
         let p = if alignment_mode.free_end_gap_x() {
